@@ -46,6 +46,18 @@ thread_local! {
     static SAFEPOINTS: Cell<u64> = const { Cell::new(0) };
     static COLLECTIONS: Cell<u64> = const { Cell::new(0) };
     static TID: Cell<u64> = const { Cell::new(0) };
+    static TOTAL_TICKS: Cell<u64> = const { Cell::new(0) };
+}
+
+/// Called on every tick with the evaluator's total tick count.
+#[inline]
+pub fn set_total_ticks(t: u64) {
+    TOTAL_TICKS.with(|c| c.set(t));
+}
+
+/// Total tick count of the evaluator that ticked last on this thread.
+pub fn total_ticks() -> u64 {
+    TOTAL_TICKS.with(|c| c.get())
 }
 
 static GLOBAL_ON: AtomicBool = AtomicBool::new(false);
